@@ -63,6 +63,7 @@ package structuredheader
 //@   ensures[label-is-token] err == nil ==> len(pi.Label) >= 1 && alpha(pi.Label[0]) && (forall i int :: 0 <= i && i < len(pi.Label) ==> tokenChar(pi.Label[i]))
 //@   ensures[progress] err == nil ==> len(p.input) < len(old(p.input)) && pi.Params != nil
 //@   ensures[keys-are-keys] err == nil ==> forall k Key :: has(pi.Params, k) ==> len(k) >= 1 && lcAlpha(k[0])
+//@   assert[repeated-key-refused] before "parameters[paramName] = paramValue" :: !has(parameters, paramName)
 //@   assigns p.input
 //@   loop 0:
 //@     invariant parameters != nil && fresh(parameters) && len(p.input) < len(old(p.input))
